@@ -45,3 +45,41 @@ package code
 //@   ensures  [notag] File(pass, node).GoVersion == "" ==> result == pass.Pkg.GoVersion()
 //@   ensures  [old]   File(pass, node).GoVersion != "" && version.Compare(pass.Pkg.GoVersion(), "go1.21") == -1 ==> result == File(pass, node).GoVersion
 //@   ensures  [new]   File(pass, node).GoVersion != "" && version.Compare(pass.Pkg.GoVersion(), "go1.21") != -1 ==> result == (version.Compare(File(pass, node).GoVersion, pass.Pkg.GoVersion()) == 1 ? File(pass, node).GoVersion : pass.Pkg.GoVersion())
+
+//@ prop C08
+
+// The type index (vendored x/tools code, not verified): lookups are pure functions of the index.
+//@ extern (*honnef.co/go/tools/internal/xtools-internal/typesinternal/typeindex.Index).Object(path string, name string) types.Object
+//@   pure
+//@ extern (*honnef.co/go/tools/internal/xtools-internal/typesinternal/typeindex.Index).Selection(path string, typename string, name string) types.Object
+//@   pure
+//@ extern slices.ContainsFunc(s []pattern.Node, f func(pattern.Node) bool) bool
+//@   ensures result == (exists i int :: {s[i]} 0 <= i && i < len(s) && apply(f, s[i]))
+
+// ref: the symbol is visible from the package (the index has an object for it). The "world" of
+// pattern's specification (pattern/contracts_verif.go: vis, ev, sat) is the index.
+//@ ghost ref(index *typeindex.Index, s pattern.IndexSymbol) bool = s.Type == "" ? index.Object(s.Path, s.Ident) != nil : index.Selection(s.Path, s.Type, s.Ident) != nil
+//@ ghost wof(index *typeindex.Index) int
+//@ group world
+//@ axiom [vis_ref] forall index *typeindex.Index, s pattern.IndexSymbol :: {pattern.vis(wof(index), s)} pattern.vis(wof(index), s) == ref(index, s)
+//@ group
+
+// the recursive evaluator of CouldMatchAny computes ev (it may panic on other node kinds)
+//@ func CouldMatchAny$1
+//@   uses     pattern:evdef, world
+//@   pure
+//@   may_panic
+//@   nosafe   all
+//@   ensures  [ev] result == pattern.ev(wof(index), node)
+//@   loop 1   index k
+//@   loop 1   invariant [all] forall j int :: {node.Nodes[j]} 0 <= j && j < k ==> pattern.ev(wof(index), node.Nodes[j])
+
+// CouldMatchAny: some pattern's symbols pattern is true under the package's index
+//@ func CouldMatchAny
+//@   uses     pattern:evdef, world
+//@   may_panic
+//@   nosafe   all
+//@   modifies heap
+//@   ensures  [any] result == (exists q int :: {qs[q]} 0 <= q && q < len(qs) && pattern.ev(wof(astype(pass.ResultOf[typeindexanalyzer.Analyzer], *typeindex.Index)), qs[q].SymbolsPattern))
+//@   loop 1   index k
+//@   loop 1   invariant [none] forall j int :: {qs[j]} 0 <= j && j < k ==> !pattern.ev(wof(index), qs[j].SymbolsPattern)
